@@ -656,6 +656,10 @@ class Den:
         if a.fi:
             raise Reject("power with free indices")
         z, p = a.arr[()], b.arr[()]
+        if z == 0 and abs(p) <= TIE and not (b.bits is not None and p == 0):
+            # 0**p jumps from 1 to 0 at p == 0: an exponent that is zero only up to rounding (a derivative that vanishes
+            # identically, computed on either side) decides nothing
+            self.flag("tie:zero-to-the-power-zero")
         if is_int_valued(p):
             k = int(MP.re(p))
             if z == 0 and k < 0:
